@@ -10,8 +10,14 @@
   Order of the two recursive calls: the C++ writes `Adaptive(left) + Adaptive(right)`; the order
   of evaluation of the operands of `+` is unspecified by the language.  The model lists the left
   half first (what g++ 12 does at -O1); the value and the warning flag do not depend on the order.
+
+  Numeric literals of the source (`h / 12`, `4 *`, `15 * epsilon`, `/ 15`, `epsilon / 2`, `h / 6`,
+  `bottom - 1`) are NOT written here: they are the reducible constants `K.*` of
+  `LpModel/C03/Constants.lean`, regenerated from src/Integration.cpp before every build
+  (translators/constants.py, DESIGN.md §4.5).
 -/
 import LpModel.Basic
+import LpModel.C03.Constants
 namespace Lp.C03
 
 /-- one invocation of `Adaptive_Simpson_Integration` -/
@@ -29,10 +35,10 @@ structure Panel where
   deriving Repr
 
 /-- the value a leaf returns (Boole's rule when `S` is Simpson's rule on the panel) -/
-def Panel.boole (p : Panel) : Rat := p.S2 + (p.S2 - p.S) / 15
+def Panel.boole (p : Panel) : Rat := p.S2 + (p.S2 - p.S) / K.richardson
 
 /-- the acceptance test failed (meaningful for leaves: the panel was cut off by `bottom <= 0`) -/
-def Panel.cutOff (p : Panel) : Bool := decide (rabs (p.S2 - p.S) > 15 * p.eps)
+def Panel.cutOff (p : Panel) : Bool := decide (rabs (p.S2 - p.S) > K.warnFactor * p.eps)
 
 structure Res where
   val : Rat
@@ -40,6 +46,11 @@ structure Res where
   warn : Bool           -- `warning` flag
   panels : List Panel   -- every invocation, in call order
   deriving Repr
+
+/-- The recursion scheme below (`n + 1 ↦ n`, structural) IS the source's `bottom - 1` in both recursive
+    calls: the depth consumed per level is read from the source and must be 1 for this model to be
+    the code (any other value breaks this obligation; the oracle then searches the implementation). -/
+theorem depthStep_is_one : K.depthStepL = 1 ∧ K.depthStepR = 1 := by decide
 
 /-- `Adaptive_Simpson_Integration(func,a,b,epsilon,S,fa,fb,fc,bottom,warning)`.
     `bottom : Nat` is `max bottom 0` of the C++ `int` (the code only tests `bottom <= 0`). -/
@@ -50,21 +61,21 @@ def adaptive (f : Rat → Rat) (a b eps S fa fb fc : Rat) (bottom : Nat) : Res :
   let e := (b + c) / 2
   let fd := f d
   let fe := f e
-  let Sleft := (h / 12) * (fa + 4 * fd + fc)
-  let Sright := (h / 12) * (fc + 4 * fe + fb)
+  let Sleft := (h / K.sLeftDiv) * (fa + K.sLeftMidW * fd + fc)
+  let Sright := (h / K.sRightDiv) * (fc + K.sRightMidW * fe + fb)
   let S2 := Sleft + Sright
   let mk (leaf : Bool) : Panel :=
     { a := a, b := b, eps := eps, S := S, fa := fa, fb := fb, fc := fc, S2 := S2, bottom := bottom, leaf := leaf }
   match bottom with
   | 0 =>
     -- `bottom <= 0`: return; the warning is raised when the test fails
-    { val := S2 + (S2 - S) / 15, evals := [d, e], warn := decide (rabs (S2 - S) > 15 * eps), panels := [mk true] }
+    { val := S2 + (S2 - S) / K.richardson, evals := [d, e], warn := decide (rabs (S2 - S) > K.warnFactor * eps), panels := [mk true] }
   | n + 1 =>
-    if rabs (S2 - S) ≤ 15 * eps then
-      { val := S2 + (S2 - S) / 15, evals := [d, e], warn := false, panels := [mk true] }
+    if rabs (S2 - S) ≤ K.accFactor * eps then
+      { val := S2 + (S2 - S) / K.richardson, evals := [d, e], warn := false, panels := [mk true] }
     else
-      let L := adaptive f a c (eps / 2) Sleft fa fc fd n
-      let R := adaptive f c b (eps / 2) Sright fc fb fe n
+      let L := adaptive f a c (eps / K.epsDivL) Sleft fa fc fd n
+      let R := adaptive f c b (eps / K.epsDivR) Sright fc fb fe n
       { val := L.val + R.val, evals := d :: e :: (L.evals ++ R.evals), warn := L.warn || R.warn,
         panels := mk false :: (L.panels ++ R.panels) }
 
@@ -81,7 +92,7 @@ def integrate (f : Rat → Rat) (a b eps : Rat) (depth : Int) : Res :=
     let fa := f lo
     let fb := f hi
     let fc := f c
-    let S := (h / 6) * (fa + 4 * fc + fb)
+    let S := (h / K.coarseDiv) * (fa + K.coarseMidW * fc + fb)
     let r := adaptive f lo hi (rabs eps) S fa fb fc depth.toNat
     { val := sign * r.val, evals := lo :: hi :: c :: r.evals, warn := r.warn, panels := r.panels }
 
